@@ -617,7 +617,7 @@ func Run(rc *core.RunCtx) {
 				w.NextStep()
 				w.ReleaseNext(func(it *core.Item) any { return nil })
 			} else {
-				time.Sleep(time.Millisecond)
+				core.Nap(time.Millisecond)
 			}
 		}
 		cancel2()
